@@ -511,3 +511,92 @@ def literal_parts(t):
     if t[0] == "call" and t[1] in ("builtins.str", "pathlib.Path") and t[2]:
         return literal_parts(t[2][0])
     return []
+
+
+class EvUnknown(Exception):
+    pass
+
+
+def ev_term(t, atoms):
+    """Evaluate a scalar guard term over a valuation of its atoms
+    (``atoms(term)`` returns the value or raises KeyError): constants,
+    not / and / or, comparisons, + - * // %, unary minus, conditional
+    expressions, len() of an atom.  Raises EvUnknown otherwise."""
+    try:
+        return atoms(t)
+    except KeyError:
+        pass
+    k = t[0]
+    if k == "const":
+        return t[1]
+    if k == "un":
+        v = ev_term(t[2], atoms)
+        if t[1] == "not":
+            return not v
+        if t[1] == "-":
+            return -v
+        if t[1] == "+":
+            return v
+    if k == "bool":
+        vals = t[2]
+        if t[1] == "and":
+            r = True
+            for x in vals:
+                r = ev_term(x, atoms)
+                if not r:
+                    return r
+            return r
+        r = False
+        for x in vals:
+            r = ev_term(x, atoms)
+            if r:
+                return r
+        return r
+    if k == "cmp":
+        a, b = ev_term(t[2], atoms), ev_term(t[3], atoms)
+        ops = {"<": lambda: a < b, "<=": lambda: a <= b, ">": lambda: a > b,
+               ">=": lambda: a >= b, "==": lambda: a == b,
+               "!=": lambda: a != b, "is": lambda: a is b,
+               "is not": lambda: a is not b, "in": lambda: a in b,
+               "not in": lambda: a not in b}
+        if t[1] in ops:
+            return ops[t[1]]()
+    if k == "bin":
+        a, b = ev_term(t[2], atoms), ev_term(t[3], atoms)
+        ops = {"+": lambda: a + b, "-": lambda: a - b, "*": lambda: a * b,
+               "//": lambda: a // b, "%": lambda: a % b}
+        if t[1] in ops:
+            return ops[t[1]]()
+    if k == "ifexp":
+        return ev_term(t[2] if ev_term(t[1], atoms) else t[3], atoms)
+    raise EvUnknown(_tkey(t)[:120])
+
+
+def seq_parts(t):
+    """A list built by displays, +, append, comprehensions and append-loops
+    as [('item', x) | ('each', element term, iterable term)]; None when not
+    recognised."""
+    if t[0] == "list":
+        return [("item", x) for x in t[1]]
+    if t[0] == "bin" and t[1] == "+":
+        a, b = seq_parts(t[2]), seq_parts(t[3])
+        return None if a is None or b is None else a + b
+    if t[0] == "comp" and t[1] == "list" and len(t[3]) == 1 and \
+            not t[3][0][2]:
+        return [("each", t[2], t[3][0][1])]
+    if t[0] == "mut" and t[2] == "append" and len(t[3]) == 1:
+        base = seq_parts(t[1])
+        return None if base is None else base + [("item", t[3][0])]
+    if t[0] == "phi" and len(t[1]) == 2:
+        # A | (A | <loop>){.append(x)}  : zero or more appends in a loop
+        a, m = t[1]
+        if m[0] == "mut" and m[2] == "append" and len(m[3]) == 1 and \
+                m[1][0] == "phi" and len(m[1][1]) == 2 and \
+                m[1][1][0] == a and m[1][1][1][0] == "rec":
+            base = seq_parts(a)
+            x = m[3][0]
+            its = {y[1] for y in _walk(x) if isinstance(y, tuple)
+                   and len(y) == 2 and y[0] == "elem"}
+            if base is not None and len(its) == 1:
+                return base + [("each", x, next(iter(its)))]
+    return None
